@@ -321,7 +321,7 @@ func workerMain(c *Check, tier Tier, seed uint64, idx, nworkers, runs int, maxSe
 		w := verifrt.NewWorld(rs)
 		res := execRun(c, w, tier)
 		out.Runs++
-		if c.HistoryProbe && (probeHistoryAt(k) || noReset && k%4 == 3) {
+		if c.HistoryProbe && (probeHistoryAt(c, k) || noReset && k%4 == 3) {
 			historyProbe(c, tier, rs, res, filepath.Dir(outPath), k)
 		}
 		if os.Getenv("VSIM_SELFCHECK") != "" {
@@ -435,7 +435,23 @@ func historyProbe(c *Check, tier Tier, seed uint64, res *RunResult, scratch stri
 	}
 }
 
-func probeHistoryAt(k int) bool { return k > 0 && (k&(k-1) == 0 || k%97 == 0) }
+// probeHistoryAt: which runs of a worker are repeated in a fresh process.  A
+// fresh process of a race-instrumented harness that has to load a golden table
+// costs seconds, so those checks probe at k = 1, 8, 64, ... only.
+func probeHistoryAt(c *Check, k int) bool {
+	if k <= 0 {
+		return false
+	}
+	if c.NeedsRace {
+		for p := 1; p <= k; p *= 8 {
+			if p == k {
+				return true
+			}
+		}
+		return false
+	}
+	return k&(k-1) == 0 || k%97 == 0
+}
 
 func replayOnce(c *Check, tier Tier, seed uint64, tapes map[string][]uint32, prelude ...uint64) *replayOut {
 	if noReset && c.Age != nil {
